@@ -16,7 +16,7 @@
     114 / 115 = 14 / 15 and, in addition, the model's verdict differs from the checker's
      12  ill-formed case (no rows, rows of different lengths, PDP row of even length): never generated *)
 From Coq Require Import ZArith List Bool Lia ZifyBool Arith Permutation.
-From RL4CO Require Import Env.Improve Env.ImprovePDP Env.ImproveChecker.
+From RL4CO Require Import Env.Improve Env.ImprovePDP Env.ImproveChecker Env.ImproveCheckerFix.
 Import ListNotations.
 
 (* ------------------------------------------------------------------ the sort of the code, on integers *)
@@ -189,6 +189,62 @@ Definition check_verdict (c : chk_case) : Z :=
     else if negb accepted && spec then (if differs then 114%Z else 14%Z)
     else if differs then 13%Z else 0%Z
   end.
+
+(* ------------------------------------------------------------------ the REPAIRED checkers (Env/ImproveCheckerFix.v)
+   Not what the current code does: [check_verdict_fix] is the function the harness switches to (MODEL_OF_CODE in
+   vt/props/c06_improve.py) once the repair -- assert (visited_time > 0).all() after the walk from node 0 -- is
+   applied to /repo.  For these models acceptance is EXACTLY the specification (tspk_checker_fix_exact,
+   pdp_checker_fix_exact), so codes 14 / 15 can then only come together with a model difference. *)
+Definition tspk_checker_fix_z (rec : list Z) : bool :=
+  if tspk_checker_z rec then tspk_checker_fix (map Z.to_nat rec) else false.
+Definition pdp_checker_fix_z (rec : list Z) : bool :=
+  if tspk_checker_z rec then pdp_checker_fix (map Z.to_nat rec) else false.
+
+Theorem tspk_checker_fix_z_is_spec rec : tspk_checker_fix_z rec = spec_tour_z rec.
+Proof.
+  unfold tspk_checker_fix_z, spec_tour_z. rewrite tspk_checker_z_char. destruct (in_rangeb rec); [|reflexivity].
+  destruct (tspk_checker (map Z.to_nat rec)) eqn:C.
+  - destruct (tspk_checker_fix (map Z.to_nat rec)) eqn:F; destruct (is_tourb (map Z.to_nat rec)) eqn:S; try reflexivity.
+    + apply tspk_checker_fix_exact, is_tourb_spec in F. congruence.
+    + apply is_tourb_spec, tspk_checker_fix_exact in S. congruence.
+  - destruct (is_tourb (map Z.to_nat rec)) eqn:S; [|reflexivity].
+    apply is_tourb_spec, tspk_checker_complete in S. congruence.
+Qed.
+
+Theorem pdp_checker_fix_z_is_spec rec h :
+  length rec = (2 * h + 1)%nat -> pdp_checker_fix_z rec = spec_pdp_z rec.
+Proof.
+  intros Hn. assert (Hn' : length (map Z.to_nat rec) = (2 * h + 1)%nat) by (rewrite map_length; exact Hn).
+  unfold pdp_checker_fix_z, spec_pdp_z. rewrite tspk_checker_z_char. destruct (in_rangeb rec); [|reflexivity].
+  destruct (pdp_checker_fix (map Z.to_nat rec)) eqn:F; destruct (pdp_validb (map Z.to_nat rec)) eqn:S.
+  - destruct (tspk_checker (map Z.to_nat rec)) eqn:C; [reflexivity|].
+    unfold pdp_checker_fix in F. rewrite C in F. discriminate.
+  - apply (pdp_checker_fix_exact _ h Hn'), pdp_validb_spec in F. congruence.
+  - apply pdp_validb_spec, (pdp_checker_fix_exact _ h Hn') in S. congruence.
+  - destruct (tspk_checker (map Z.to_nat rec)); reflexivity.
+Qed.
+
+Definition model_row_fix (kind : nat) (rec : list Z) : bool :=
+  match kind with O => tspk_checker_fix_z rec | _ => pdp_checker_fix_z rec end.
+
+Definition check_verdict_fix (c : chk_case) : Z :=
+  match c with (kind, rows, accepted) =>
+    if negb (wf_case kind rows) then 12%Z else
+    let spec := forallb (spec_row kind) rows in
+    let model := forallb (model_row_fix kind) rows in
+    let differs := negb (Bool.eqb model accepted) in
+    if accepted && negb spec then (if differs then 115%Z else 15%Z)
+    else if negb accepted && spec then (if differs then 114%Z else 14%Z)
+    else if differs then 13%Z else 0%Z
+  end.
+
+Example hc06i_ex_fix :
+  map check_verdict_fix
+      [ (0, [[1; 0; 3; 2]]%Z, false); (1, [[3; 2; 1; 4; 0]]%Z, false);   (* the two witnesses: rejected, as they should *)
+        (0, [[1; 0; 3; 2]]%Z, true);                                     (* the current code's verdict *)
+        (0, [[3; 5; 4; 1; 0; 2]]%Z, true); (1, [[2; 5; 1; 6; 3; 4; 0]]%Z, true); (1, [[4; 2; 5; 6; 1; 3; 0]]%Z, false) ]
+  = [0; 0; 115; 0; 0; 0]%Z.
+Proof. vm_compute. reflexivity. Qed.
 
 (* ------------------------------------------------------------------ examples *)
 (* the two refuted soundness witnesses of Properties/C06_improve.v: accepted by the model, invalid *)
